@@ -258,7 +258,9 @@ func (g *gen) genStatement(o string, typ types.Type) error {
 			return err
 		}
 		p.P("h = 31*h + %s", keyStr)
-		valStr, err := g.field(o+"[k]", ttyp.Elem())
+		// a local copy of the element is addressable, which a Hash method on the pointer needs.
+		p.P("v := %s[k]", o)
+		valStr, err := g.field("v", ttyp.Elem())
 		if err != nil {
 			return err
 		}
@@ -276,6 +278,17 @@ func wrap(value string) string {
 		return "(" + value + ")"
 	}
 	return value
+}
+
+// hashMethodOnValue reports whether the Hash method is declared on the value, not on the pointer.
+func hashMethodOnValue(typ *types.Named) bool {
+	for i := 0; i < typ.NumMethods(); i++ {
+		if meth := typ.Method(i); meth.Name() == "Hash" {
+			_, onPointer := meth.Type().(*types.Signature).Recv().Type().(*types.Pointer)
+			return !onPointer
+		}
+	}
+	return false
 }
 
 func hasHashMethod(typ *types.Named) bool {
@@ -300,7 +313,7 @@ func hasHashMethod(typ *types.Named) bool {
 		if !ok {
 			continue
 		}
-		if b.Kind() != types.Int32 {
+		if b.Kind() != types.Uint64 {
 			continue
 		}
 		return true
@@ -339,6 +352,10 @@ func (g *gen) field(fieldName string, fieldType types.Type) (string, error) {
 		ref := typ.Elem()
 		if named, ok := ref.(*types.Named); ok {
 			if hasHashMethod(named) {
+				if hashMethodOnValue(named) {
+					// calling a value method through a nil pointer panics: nil hashes like it does in the derived function.
+					return fmt.Sprintf("func() uint64 { if %[1]s == nil { return 0 }; return %[1]s.Hash() }()", wrap(fieldName)), nil
+				}
 				return fmt.Sprintf("%s.Hash()", wrap(fieldName)), nil
 			}
 		}
